@@ -115,11 +115,25 @@ func checkC19(c c19Case, rec *Rec) *Violation {
 	if len(c.Lists) >= 2 {
 		kinds = append(kinds, "closed-fd-first-list-only")
 	}
+	// the storage is closed and the process then opens other files, which get the descriptor numbers of the lists
+	kinds = append(kinds, "close-then-descriptors-reused")
 	for _, kind := range kinds {
 		for k := 0; k <= n; k++ {
-			en, fls, cleanup, err := c19Engines(c.Lists)
+			if kind == "close-then-descriptors-reused" && k != 1 && k != n/2+1 {
+				continue // two fault points are enough for this kind (it needs a rule loaded before the fault)
+			}
+			en, fls, cleanup0, err := c19Engines(c.Lists)
 			if err != nil {
 				return viol(id, "C19:harness", "storage: %v", err)
+			}
+			var decoys []*os.File
+			cleanup := func() {
+				for _, d := range decoys {
+					name := d.Name()
+					_ = d.Close()
+					_ = os.Remove(name)
+				}
+				cleanup0()
 			}
 			seen := map[string]bool{}
 			for i, q := range c.Queries {
@@ -127,6 +141,15 @@ func checkC19(c c19Case, rec *Rec) *Violation {
 					switch kind {
 					case "close":
 						_ = en.st.Close()
+					case "close-then-descriptors-reused":
+						_ = en.st.Close()
+						for j := 0; j < len(fls)+2; j++ {
+							if d, derr := os.CreateTemp("", "verif-decoy-*.txt"); derr == nil {
+								// text that is a matching rule from whatever offset a stray read starts
+								_, _ = d.WriteString(strings.Repeat("||example.org^\nadsgp\n0.0.0.0 example.org\n/banner_ad\nexample\n", 3000))
+								decoys = append(decoys, d)
+							}
+						}
 					case "closed-fd":
 						for _, fl := range fls {
 							old := fl.File
